@@ -92,6 +92,7 @@ Proof.
   - apply sbc_refl.
   - apply sbc_refl.
   - destruct (isvis (fuel_of s) s x); apply sbc_refl.
+  - apply sbc_refl.
 Qed.
 
 (* filling a cache with the fresh value keeps every cache coherent *)
@@ -132,6 +133,7 @@ Proof.
   - exact C.
   - exact C.
   - destruct (isvis (fuel_of s) s x); exact C.
+  - exact C.
 Qed.
 
 (* the answer of bbox on a coherent state is the fresh value (viewbox substitution for an empty document) *)
